@@ -5,3 +5,4 @@ import FggsModel.Interp
 import FggsModel.Graph
 import FggsModel.Replace
 import FggsModel.Json
+import FggsModel.Conj
